@@ -64,9 +64,15 @@ Lemma amt_cost_len am : amt_cost am <= L (print_amt am).
 Proof.
   destruct am as [rw p | t | t sp n v p | t w0 pw | t w0 p | t w0 | t w0 u w1 p]; cbn [amt_cost]; try lia.
   unfold print_amt. cbn [amt_lead amt_tail seg_cost]. pose proof (ntext_len t) as Hn.
-  unfold explicit_bparts. cbn [List.length]. repeat rewrite app_length. cbn [List.length].
-  rewrite fold_right_app. destruct w0 as [|h w0']; destruct (unit_text u ++ w1) as [|h2 T'] eqn:ET;
-    cbn [fold_right List.length]; rewrite <- ?app_length; rewrite ?ET; cbn [List.length]; lia.
+  unfold explicit_bparts. rewrite app_length. cbn [List.length].
+  assert (E : L (w0 ++ ntext_str t ++ unit_text u ++ w1 ++ [125%N]) = L w0 + L (ntext_str t) + L (unit_text u ++ w1) + 1).
+  { repeat rewrite app_length. cbn [List.length]. lia. }
+  rewrite E. clear E. rewrite fold_right_app. cbn [fold_right].
+  assert (E2 : fold_right (fun (b : bpart) (n : nat) => match b with BStr x _ => L x | BNum _ => 1 end + n) 0
+                 (match unit_text u ++ w1 with [] => [] | n :: l => [BStr (n :: l) []] end) = L (unit_text u ++ w1)).
+  { destruct (unit_text u ++ w1); cbn [fold_right List.length]; lia. }
+  rewrite E2. clear E2.
+  destruct w0 as [|h w0']; cbn [fold_right List.length]; lia.
 Qed.
 
 Lemma cost_len : forall h e, height e <= h -> cost e <= 2 * L (print_expr e) + 2.
